@@ -231,6 +231,7 @@ def _helpers_inlined(pkg, file, cls, value):
 
 def _r7(ctx):
     pkg = package(ctx.tree)
+    from .c20 import straighten
     n = 0
     for f in pkg.files:
         if not f.startswith("naunet/") or f.startswith("naunet/examples/") or not f.endswith(".py"):
@@ -244,7 +245,9 @@ def _r7(ctx):
                 if isinstance(ch, ast.ClassDef):
                     visit(ch, ch.name)
                 elif isinstance(ch, (ast.FunctionDef, ast.AsyncFunctionDef)):
-                    visit(ch, f"{qual}.{ch.name}" if qual else ch.name)
+                    # one store per statement: tuple assignments split, `if c: T = a else: T = b` as `T = a if c else b`, a value hoisted
+                    # into a once-used local back where it is stored
+                    visit(straighten(ch), f"{qual}.{ch.name}" if qual else ch.name)
                 else:
                     if isinstance(ch, (ast.Assign, ast.AugAssign, ast.AnnAssign)):
                         tgts = ch.targets if isinstance(ch, ast.Assign) else [ch.target]
@@ -299,7 +302,7 @@ def _r7(ctx):
     for attr, store in (("rate_modifier", "_rate_modifier"), ("ode_modifier", "_ode_modifier")):
         ci = pkg.cls("Network")
         getters = [fn for fn in ci.node.body if isinstance(fn, ast.FunctionDef) and fn.name == attr and any(ast.unparse(d) == "property" for d in fn.decorator_list)]
-        rets = [x for x in ast.walk(getters[0]) if isinstance(x, ast.Return)] if len(getters) == 1 else []
+        rets = [x for x in ast.walk(straighten(getters[0])) if isinstance(x, ast.Return)] if len(getters) == 1 else []
         def bare(v):
             """the table a whole-copy expression carries: X for X, X.copy(), dict(X), copy.deepcopy(X)"""
             while isinstance(v, ast.Call) and _whole_copy(v):
